@@ -168,6 +168,21 @@ func normText(s string) string {
 	return strings.Replace(s, "\r\n", "\n", -1)
 }
 
+// jsonImage is what a string looks like after a trip through JSON: bytes that are not valid UTF-8 cannot be carried
+// by a JSON string and come back as U+FFFD. The Text of a classification is compared modulo this (a file in Latin-1,
+// such as a license with a 0xA9 copyright sign, cannot be quoted byte for byte in JSON by any tool).
+func jsonImage(s string) string {
+	b, err := json.Marshal(s)
+	if err != nil {
+		return s
+	}
+	var out string
+	if json.Unmarshal(b, &out) != nil {
+		return s
+	}
+	return out
+}
+
 // materialise writes the files of a case under root and returns path -> content in a stable order.
 func c19Materialise(c *c19Case, root string) ([]string, map[string][]byte, error) {
 	contents := map[string][]byte{}
@@ -333,7 +348,12 @@ func c19CLICheck(ci interface{}) lib.Outcome {
 				k := fmt.Sprintf("%s|%v|%d|%d", cc.Name, cc.Confidence, cc.StartLine, cc.EndLine)
 				gotJSON[fc.Filepath] = append(gotJSON[fc.Filepath], k)
 				if c.IncludeText {
-					if want, ok := wantText[fc.Filepath+"\x00"+k]; ok && normText(cc.Text) != want {
+					if want, ok := wantText[fc.Filepath+"\x00"+k]; ok && normText(cc.Text) != jsonImage(want) {
+						if d := os.Getenv("VERIF_DEBUG"); d != "" {
+							os.WriteFile(d+"/want.txt", []byte(want), 0o644)
+							os.WriteFile(d+"/got.txt", []byte(cc.Text), 0o644)
+							os.WriteFile(d+"/file.txt", contents[fc.Filepath], 0o644)
+						}
 						return lib.Outcome{Violation: fmt.Sprintf("%s: Text of %s in %s is not lines %d..%d of the file\nexpected %s\ngot      %s", desc, cc.Name, fc.Filepath, cc.StartLine, cc.EndLine, lib.Preview([]byte(want), 200), lib.Preview([]byte(cc.Text), 200))}
 					}
 				} else if cc.Text != "" {
